@@ -8,6 +8,7 @@ import (
 	"sync"
 	"syscall"
 	"testing"
+	"time"
 
 	libaudit "github.com/elastic/go-libaudit/v2"
 	"pgregory.net/rapid"
@@ -44,6 +45,8 @@ type C17Case struct {
 	// ClosedReads: the closed socket refuses every read with EBADF (false: replies already queued stay readable)
 	AfterClose  int  `json:"after_close,omitempty"`
 	ClosedReads bool `json:"closed_reads,omitempty"`
+	// Tail: calls made on the closed client (setpid, nowait, close): every Close among them must be a no-op
+	Tail []string `json:"tail,omitempty"`
 }
 
 func (c C17Case) Describe() string {
@@ -51,7 +54,7 @@ func (c C17Case) Describe() string {
 	for i, o := range c.Ops {
 		fmt.Fprintf(&b, " %d %s u32=%d ack-errno=%d rules=%x noise=%d eintr=%d\n", i, o.K, o.U32, o.Errno, o.Rules, o.Noise, o.Eintr)
 	}
-	fmt.Fprintf(&b, " then Close x %d (sends during Close fail with errno %d), then WaitForPendingACKs x %d (reads on the closed socket fail: %v)\n", c.Closes, c.CloseSendErrno, c.AfterClose, c.ClosedReads)
+	fmt.Fprintf(&b, " then Close x %d (sends during Close fail with errno %d), then WaitForPendingACKs x %d (reads on the closed socket fail: %v), then %v\n", c.Closes, c.CloseSendErrno, c.AfterClose, c.ClosedReads, c.Tail)
 	return b.String()
 }
 
@@ -82,6 +85,7 @@ func genC17(t *rapid.T) C17Case {
 	if c.Closes > 0 {
 		c.AfterClose = rapid.SampledFrom([]int{0, 0, 1, 2}).Draw(t, "afterclose")
 		c.ClosedReads = rapid.Bool().Draw(t, "closedreads")
+		c.Tail = rapid.SliceOfN(rapid.SampledFrom([]string{"close", "setpid", "setpidwait", "nowait", "close"}), 0, 4).Draw(t, "tail")
 	}
 	return c
 }
@@ -332,6 +336,28 @@ func propC17(c C17Case) error {
 			hC17.Class("history-waitacks-after-close-with-pending")
 		}
 	}
+	if c.Closes > 0 && len(c.Tail) > 0 {
+		// the socket is closed: whatever is sent or read now fails, as on a real closed descriptor
+		k.SendErr = syscall.EBADF
+		k.ClosedReadErr = syscall.EBADF
+		for j, op := range c.Tail {
+			switch op {
+			case "setpid":
+				_ = cl.SetPID(libaudit.NoWait)
+			case "setpidwait":
+				_ = cl.SetPID(libaudit.WaitForReply)
+			case "nowait":
+				_ = cl.SetRateLimit(1, libaudit.NoWait)
+			case "close":
+				sends, recvs := k.Sends, k.Recvs
+				_ = cl.Close()
+				if k.Closes != 1 || k.Sends != sends || k.Recvs != recvs {
+					return fmt.Errorf("call %d on the closed client (%v): this Close is not a no-op: socket closed %d times in all, %d send attempts and %d receives in this call", j, c.Tail[:j+1], k.Closes, k.Sends-sends, k.Recvs-recvs)
+				}
+				hC17.Class("history-close-after-calls-on-closed-client")
+			}
+		}
+	}
 	if err := checkSaved("after Close"); err != nil {
 		return err
 	}
@@ -398,6 +424,7 @@ func TestC17ConcurrentClose(t *testing.T) {
 			}
 		}
 		sentBefore := len(lk.k.Sent)
+		hC17.BeginLimit("TestC17", C17Case{Closes: g}, 120*time.Second) // a round that never returns is a deadlock
 		var wg sync.WaitGroup
 		start := make(chan struct{})
 		for j := 0; j < g; j++ {
@@ -410,6 +437,7 @@ func TestC17ConcurrentClose(t *testing.T) {
 		}
 		close(start)
 		wg.Wait()
+		hC17.End()
 		hC17.Eval()
 		c := C17Case{Closes: g}
 		if usePID {
